@@ -13,6 +13,11 @@ import (
 var itemSep string
 var kvSep string
 
+// reservedSepChars are the characters used by parameter names and flags in the encoded strings
+// ("S", "V", "c", "b", "a", "sp", "sr", "sl", "sb", "dp", "dr", "dm", "dl", "dif", "p", "m", "l", "r"):
+// they may never be picked as separators, or the encoded string would be ambiguous.
+const reservedSepChars = "SVabcdfilmprs"
+
 const (
 	fuseGlobalsEnvVar  = "dm_fuse_opts"
 	bundleEnvVarPrefix = "dm_fuse_bd_"
@@ -290,6 +295,7 @@ func setSeparators(paramsStruct interface{}) error {
 	if err != nil {
 		return err
 	}
+	stringVals = append(stringVals, reservedSepChars)
 	invalidSeps, err := mergeAndUniqifyRunes(stringVals...)
 	if err != nil {
 		return err
